@@ -13,6 +13,7 @@ func init() {
 	zzsv.Register("ZZ_C15_Copies", ZZ_C15_Copies)
 	zzsv.Register("ZZ_C15_Host", ZZ_C15_Host)
 	zzsv.Register("ZZ_C15_LoopValues", ZZ_C15_LoopValues)
+	zzsv.Register("ZZ_C15_IndexOperands", ZZ_C15_IndexOperands)
 }
 
 func stIncr(name, op string, e *zzExpr) *zzStmt { return &zzStmt{kind: sIncr, name: name, op: op, e: e} }
@@ -247,4 +248,60 @@ func ZZ_C15_LoopValues(sv *zzsv.T) {
 	ref, want := zzRunRef(sv, p, vars, nil)
 	zzDescribe(sv, "result", out, rerr)
 	zzCompareRun(sv, "C15.loop", e, out, rerr, trace, ref, want, []string{"x", "y", "n"})
+}
+
+// ZZ_C15_IndexOperands: arithmetic and compound assignment whose right
+// operand comes out of a container (an array element, a hash value under a
+// key that is a symbolic literal, an index that is itself computed): the
+// container's element, other variables that hold the same value and the
+// literals keep their values - over two runs.
+func ZZ_C15_IndexOperands(sv *zzsv.T) {
+	templates := []string{
+		"h = {7001: 10, 7002: 20}; x = 5; x += h[7001]; t(x); t(h[7001]); x = x + h[7002]; t(h[7002]); return h[7001] + h[7002];",
+		"a = [10, 20, 30]; i = 0; x = 5; x += a[i + 1]; t(a[1]); y = 1 + a[7001 - 7001]; t(y); t(a[0]); x -= a[2]; return a[0] + a[1] + a[2];",
+		"lim = 7; h = {7001: lim}; x = 100; x += h[7001]; x *= h[7001]; t(x); t(lim); return h[7001];",
+		"function add(p, q) { p += q[7001 - 7001]; return p; } a = [7002]; r = add(1, a); t(r); t(a[0]); return add(2, a) + a[0];",
+		"k = 7001; a = [k, k]; foreach v in a { s = 3; s += a[0]; s = s - a[1]; t(s); } t(k); return a[0] - k;",
+	}
+	k := sv.Choice("template", len(templates))
+	src := templates[k]
+	sv.Note("script", src+"   (7001, 7002 are symbolic literals)")
+	l1 := sv.Int64("L1")
+	l2 := sv.Int64("L2")
+	sv.Assume(l1 >= 0 && l1 <= 70000 && l2 >= 0 && l2 <= 70000 && l1 != l2)
+	var trace []object.Object
+	prog, ok := zzParseWithLits(sv, src, []int64{l1, l2})
+	sv.Assume(ok)
+	e := New(src)
+	e.AddFunction("t", func(args []object.Object) object.Object {
+		trace = append(trace, args[0])
+		return &object.Void{}
+	})
+	sv.Assume(zzPrepareAST(e, prog, sv.Choice("noopt", 2) == 0) == nil)
+	var wantTrace []int64
+	var want int64
+	switch k {
+	case 0:
+		wantTrace, want = []int64{15, 10, 20}, 30
+	case 1:
+		wantTrace, want = []int64{20, 11, 10}, 60
+	case 2:
+		wantTrace, want = []int64{749, 7}, 7
+	case 3:
+		wantTrace, want = []int64{1 + l2, l2}, 2+l2+l2
+	default:
+		wantTrace, want = []int64{3, 3, l1}, 0
+	}
+	for run := 0; run < 2; run++ {
+		trace = nil
+		out, err := e.Execute(nil)
+		zzDescribe(sv, "result", out, err)
+		sv.Assert("C15.index.result", err == nil && zzSame(sv, out, zInt(want)))
+		sv.Assert("C15.index.calls", len(trace) == len(wantTrace))
+		if len(trace) == len(wantTrace) {
+			for i := range trace {
+				sv.Assert("C15.index.trace", zzSame(sv, trace[i], zInt(wantTrace[i])))
+			}
+		}
+	}
 }
